@@ -471,4 +471,141 @@ theorem fwd_type : ∀ (ty : GType) (n : Nat) (a : AS) (σ' : Stream), Starts a.
         rintro b a5 ⟨rfl, hσ5⟩
         exact (Fwd.pure _ _).mono fun _ _ h => ⟨by rw [h.1]; simp [GType.erasePos, he'], by rw [h.2, hσ5, hσ4, h4]⟩
 
+/-! ### what a stream starts with: the kind of the first token of `ts ++ …` -/
+
+def firstKind (ts : List Tok) (k : Kind) : Kind :=
+  match ts with
+  | [] => k
+  | t :: _ => t.kind
+
+theorem Starts.firstKind {σ σ' : Stream} {ts : List Tok} (h : Starts σ ts σ') : σ.head.kind = firstKind ts σ'.head.kind := by
+  cases ts with
+  | nil => rw [Starts.nil_iff] at h; rw [h]; rfl
+  | cons t r => exact h.head_kind
+
+@[simp] theorem firstKind_nil (k : Kind) : firstKind [] k = k := rfl
+@[simp] theorem firstKind_cons (t : Tok) (r : List Tok) (k : Kind) : firstKind (t :: r) k = t.kind := rfl
+@[simp] theorem firstKind_append (A B : List Tok) (k : Kind) : firstKind (A ++ B) k = firstKind A (firstKind B k) := by
+  cases A <;> rfl
+
+theorem firstKind_directives (ds : List Directive) (k : Kind) :
+    firstKind (printDirectives ds) k = if ds = [] then k else .at := by
+  cases ds <;> simp [printDirectives, printDirective, tP]
+
+theorem firstKind_arguments (as : List Argument) (k : Kind) :
+    firstKind (printArguments as) k = if as = [] then k else .parenL := by
+  cases as <;> simp [printArguments, tP]
+
+theorem firstKind_default (dv : Option Value) (k : Kind) :
+    firstKind (printDefault dv) k = if dv = none then k else .equals := by
+  cases dv <;> simp [printDefault, tP]
+
+theorem firstKind_varDefs (vs : List VarDef) (k : Kind) :
+    firstKind (printVarDefs vs) k = if vs = [] then k else .parenL := by
+  cases vs <;> simp [printVarDefs, tP]
+
+/-! ### variable definitions -/
+
+def VarDefOK (v : VarDef) : Prop := (∀ d, v.default = some d → ValueOK d) ∧ DirsOK v.dirs
+
+/-- what may not follow a variable definition (what does follow is `$` or `)`) -/
+def FolVar (σ : Stream) : Prop :=
+  σ.head.kind ≠ .bang ∧ σ.head.kind ≠ .equals ∧ σ.head.kind ≠ .at ∧ σ.head.kind ≠ .parenL
+
+theorem fwd_varDef (v : VarDef) (hok : VarDefOK v) (hwf : WFVarDef v) (n : Nat) (a : AS) (σ' : Stream)
+    (hs : Starts a.σ (printVarDef v) σ') (hfol : FolVar σ') :
+    Fwd (parseVariableDefinition n) a (fun y a' => y.erasePos = v.erasePos ∧ a'.σ = σ') := by
+  obtain ⟨f1, f2, f3, f4⟩ := hfol
+  have hs : Starts a.σ ([tP .dollar, tName v.var] ++ ([tP .colon] ++ (printType v.type ++
+      (printDefault v.default ++ printDirectives v.dirs)))) σ' := by simpa [printVarDef] using hs
+  rw [Starts.append_iff] at hs
+  obtain ⟨σ1, h1, hs⟩ := hs
+  rw [Starts.append_iff] at hs
+  obtain ⟨σ2, h2, hs⟩ := hs
+  rw [Starts.append_iff] at hs
+  obtain ⟨σ3, h3, hs⟩ := hs
+  rw [Starts.append_iff] at hs
+  obtain ⟨σ4, h4, h5⟩ := hs
+  have k5 := h5.firstKind
+  have k4 := h4.firstKind
+  rw [firstKind_directives] at k5
+  rw [firstKind_default] at k4
+  unfold parseVariableDefinition
+  refine Fwd.bind (fwd_peekPos _) ?_
+  rintro pos b1 rfl
+  refine Fwd.bind (fwd_parseVariable v.var h1) ?_
+  rintro x b2 ⟨rfl, hσ2⟩
+  refine Fwd.bind (fwd_punct .colon (by rw [hσ2]; exact h2)) ?_
+  rintro _ b3 hσ3
+  refine Fwd.bind (fwd_type v.type n b3 σ3 (by rw [hσ3]; exact h3) (fun _ => by
+    rw [k4]; split
+    · rw [k5]; split
+      · exact f1
+      · decide
+    · decide)) ?_
+  rintro ty' b4 ⟨hty, hσ4⟩
+  have hdirs : ∀ (b : AS), b.σ = σ4 → Fwd (parseDirectives n true) b
+      (fun ys a' => ys.map Directive.erasePos = v.dirs.map Directive.erasePos ∧ a'.σ = σ') :=
+    fun b hb => fwd_directives true v.dirs hok.2 (fun _ => hwf.2) n b σ' (by rw [hb]; exact h5) f3 f4
+  cases hdv : v.default with
+  | none =>
+    rw [hdv] at h4 k4
+    simp only [printDefault] at h4
+    rw [Starts.nil_iff] at h4
+    subst h4
+    refine Fwd.bind (fwd_skipP_no .equals (by
+      rw [hσ4, k5]; split
+      · exact f2
+      · decide)) ?_
+    rintro b b5 ⟨rfl, hσ5⟩
+    refine Fwd.ite_neg (by simp) (Fwd.bind (Fwd.pure none _) ?_)
+    rintro dv b6 ⟨rfl, rfl⟩
+    refine Fwd.bind (hdirs _ (by rw [hσ5, hσ4])) ?_
+    rintro ds' b7 ⟨hds, hσ⟩
+    refine (Fwd.pure _ _).mono ?_
+    rintro y b8 ⟨rfl, rfl⟩
+    exact ⟨by simp [VarDef.erasePos, hty, hds, hdv], hσ⟩
+  | some d =>
+    rw [hdv] at h4
+    simp only [printDefault] at h4
+    obtain ⟨σe, he, hv⟩ := h4.cons_single
+    refine Fwd.bind (fwd_skipP_yes .equals (by rw [hσ4]; exact he)) ?_
+    rintro b b5 ⟨rfl, hσ5⟩
+    refine Fwd.ite_pos rfl (Fwd.bind (fwd_value true d (hok.1 d hdv) (fun _ => hwf.1 d hdv) n b5 σ4 (by rw [hσ5]; exact hv)) ?_)
+    rintro v' b6 ⟨hv', hσ6⟩
+    refine Fwd.bind (Fwd.pure (Option.some v') _) ?_
+    rintro dv b7 ⟨rfl, rfl⟩
+    refine Fwd.bind (hdirs _ hσ6) ?_
+    rintro ds' b8 ⟨hds, hσ⟩
+    refine (Fwd.pure _ _).mono ?_
+    rintro y b9 ⟨rfl, rfl⟩
+    exact ⟨by simp [VarDef.erasePos, hty, hds, hdv, hv'], hσ⟩
+
+/-- `VariableDefinitions?` -/
+theorem fwd_varDefs (vs : List VarDef) (hok : ∀ v ∈ vs, VarDefOK v) (hwf : ∀ v ∈ vs, WFVarDef v)
+    (n : Nat) (a : AS) (σ' : Stream) (hs : Starts a.σ (printVarDefs vs) σ') (hfol : vs = [] → σ'.head.kind ≠ .parenL) :
+    Fwd (parseVariableDefinitions n) a (fun ys a' => ys.map VarDef.erasePos = vs.map VarDef.erasePos ∧ a'.σ = σ') := by
+  unfold parseVariableDefinitions
+  by_cases he : vs = []
+  · subst he
+    simp only [printVarDefs, List.isEmpty_nil, if_true] at hs
+    rw [Starts.nil_iff] at hs
+    refine (fwd_bracket_absent .parenL .parenR n a (by rw [hs]; exact hfol rfl)).2.mono ?_
+    rintro ys a' ⟨rfl, hσ⟩
+    exact ⟨rfl, by rw [hσ, hs]⟩
+  · have hp : printVarDefs vs = tP .parenL :: vs.flatMap printVarDef ++ [tP .parenR] := by
+      cases vs with
+      | nil => exact absurd rfl he
+      | cons x r => simp [printVarDefs]
+    rw [hp] at hs
+    exact (fwd_bracket VarDef.erasePos printVarDef FolVar .parenL .parenR vs
+      (fun x hx a0 σ1 hst hf => fwd_varDef x (hok x hx) (hwf x hx) n a0 σ1 hst hf)
+      (fun x _ => ⟨_, _, rfl, by simp [tP]⟩)
+      (fun σ1 h => by
+        rcases h with h | ⟨x, _, t, rest, hfx, ht⟩
+        · simp [FolVar, h]
+        · have : t = tP .dollar := by simp [printVarDef] at hfx; exact hfx.1.symm
+          have hk : σ1.head.kind = .dollar := by rw [← show (Tok.ofToken σ1.head).kind = σ1.head.kind from rfl, ht, this]; rfl
+          simp [FolVar, hk]) n a σ' hs).2 he
+
 end Gql.Parser
